@@ -35,10 +35,10 @@ def viol_key(v):
     return (v.get("op"), v.get("kind"), d.get("stack", ""), tuple(sorted(v.get("tags", []))))
 
 
-def conclude(pid, tier, seed, level, res, spec, wall, extra_cov=None):
+def conclude(pid, tier, seed, level, res, spec, wall, extra_cov=None, write=True):
     """Prints the verdict lines, writes witnesses + evidence, returns the exit code."""
     known = load_known(pid)
-    repdir = os.path.join(VERIF, "replays", pid)
+    repdir = os.path.join(VERIF, "replays", pid) if write else os.path.join(VERIF, ".cache", "tmp", "selftest-replays", pid)
     os.makedirs(repdir, exist_ok=True)
     for f in os.listdir(repdir):
         if f.startswith(tier + "-"):
@@ -100,8 +100,9 @@ def conclude(pid, tier, seed, level, res, spec, wall, extra_cov=None):
         cov.update(extra_cov)
     ev = dict(property_id=pid, tier=tier, seed=seed, level=level, coverage=cov,
               assumptions=spec.get("assumptions", []), wall_s=round(wall, 2), violations=len(new))
-    os.makedirs(os.path.join(VERIF, "evidence"), exist_ok=True)
-    with open(os.path.join(VERIF, "evidence", pid + ".json"), "w") as f:
+    evdir = os.path.join(VERIF, "evidence") if write else os.path.join(VERIF, ".cache", "tmp", "selftest-evidence")
+    os.makedirs(evdir, exist_ok=True)
+    with open(os.path.join(evdir, pid + ".json"), "w") as f:
         json.dump(ev, f, indent=1, sort_keys=True)
         f.write("\n")
     print("%s %s seed=%d: cases=%d events=%d classes=%d inconclusive=%d known=%d new_violations=%d wall=%.0fs" % (
